@@ -97,8 +97,10 @@ class Desugar(ast.NodeTransformer):
         # module-level generator functions that can be expanded at a `for` over a call of them
         self.generators: Dict[str, ast.FunctionDef] = {}
         for s in module_tree.body:
-            if isinstance(s, ast.FunctionDef) and not s.decorator_list and self._inlinable_generator(s):
-                self.generators[s.name] = s
+            if isinstance(s, ast.FunctionDef) and not s.decorator_list:
+                g_ = self._rewrite_yield_from(s) if any(isinstance(x, ast.YieldFrom) for x in ast.walk(s)) else s
+                if self._inlinable_generator(g_):
+                    self.generators[s.name] = g_
         # NAME = functools.partial(f, <simple arguments>) at module level, bound once: NAME(x) is f(<arguments>, x)
         self.partials: Dict[str, ast.Call] = {}
         for s in module_tree.body:
@@ -671,13 +673,74 @@ class Desugar(ast.NodeTransformer):
             self.class_tables.pop()
             self.class_is_carrier = was
 
+    @staticmethod
+    def _rewrite_yield_from(fn: ast.FunctionDef) -> ast.FunctionDef:
+        """`yield from E` as a statement -> `for v in E: yield v`; `yield from zip(itertools.repeat(K), X)` -> `for v in X: yield (K, v)`"""
+        fn = copy.deepcopy(fn)
+        counter = [0]
+
+        class Y(ast.NodeTransformer):
+            def visit_FunctionDef(self, n):
+                return n if n is not fn else self.generic_visit(n)
+
+            def visit_Lambda(self, n):
+                return n
+
+            def visit_Expr(self, n: ast.Expr):
+                if not isinstance(n.value, ast.YieldFrom):
+                    return n
+                e = n.value.value
+                counter[0] += 1
+                v = ast.Name(id=f"__y{counter[0]}", ctx=ast.Load())
+                it, elt = e, v
+                if isinstance(e, ast.Call) and isinstance(e.func, ast.Name) and e.func.id == "zip" and len(e.args) == 2 and not e.keywords:
+                    rep = [i for i, a in enumerate(e.args) if isinstance(a, ast.Call) and ast.unparse(a.func) in ("itertools.repeat", "repeat") and len(a.args) == 1 and
+                           isinstance(a.args[0], ast.Constant)]
+                    if len(rep) == 1:
+                        k = e.args[rep[0]].args[0]
+                        it = e.args[1 - rep[0]]
+                        elt = ast.Tuple(elts=[k, v] if rep[0] == 0 else [v, k], ctx=ast.Load())
+                loop = ast.For(target=ast.Name(id=v.id, ctx=ast.Store()), iter=it, body=[ast.Expr(value=ast.Yield(value=elt))], orelse=[])
+                ast.copy_location(loop, n)
+                for x in ast.walk(loop):
+                    if isinstance(x, (ast.expr, ast.stmt)) and not hasattr(x, "lineno"):
+                        ast.copy_location(x, n)
+                ast.fix_missing_locations(loop)
+                return loop
+        return Y().visit(fn)
+
+    def _local_generators(self, node) -> Dict[str, ast.FunctionDef]:
+        """generator closures without parameters that are defined at the top of a function's body and only ever used as
+        `for ... in name():` in that function: expanded like module-level generator helpers, the definition goes"""
+        found: Dict[str, ast.FunctionDef] = {}
+        for st in list(node.body):
+            if not (isinstance(st, ast.FunctionDef) and not st.decorator_list and not (st.args.args or st.args.posonlyargs or st.args.kwonlyargs or st.args.vararg or st.args.kwarg)):
+                continue
+            g = self._rewrite_yield_from(st)
+            if not self._inlinable_generator(g):
+                continue
+            uses = [x for x in ast.walk(node) if isinstance(x, ast.Name) and x.id == st.name and x is not st]
+            fors = [f_ for f_ in ast.walk(node) if isinstance(f_, ast.For) and isinstance(f_.iter, ast.Call) and isinstance(f_.iter.func, ast.Name) and f_.iter.func.id == st.name
+                    and not f_.iter.args and not f_.iter.keywords and not any(f_ is y for y in ast.walk(st))]
+            if not fors or len(uses) != len(fors):
+                continue
+            # the closure must not re-bind names of the enclosing function other than its own locals (it cannot: no nonlocal allowed)
+            found[st.name] = g
+        if found:
+            node.body = [st for st in node.body if not (isinstance(st, ast.FunctionDef) and st.name in found)]
+        return found
+
     def visit_FunctionDef(self, node):
         self.func_stack.append(node)
+        saved = dict(self.generators)
         try:
             if self.carriers and not self.class_is_carrier:
                 self._inline_carriers(node)
+            loc = self._local_generators(node) if len(self.func_stack) >= 1 else {}
+            self.generators.update(loc)
             return self.generic_visit(node)
         finally:
+            self.generators = saved
             self.func_stack.pop()
 
     # ------------------------------------------------------------------ private carrier classes
